@@ -48,6 +48,21 @@ Theorem C01_ogg_save_partial : forall f c t cb f' pages,
 Proof. exact save_load. Qed.
 Print Assumptions C01_ogg_save_partial.
 
+(* (c) without the alignment hypothesis the file-level statement is FALSE for the code as it is (genuine defect of
+   /repo, reported): OggVorbis._inject (and OggTheora._inject) take the first page whose first packet starts with
+   b"\x03vorbis" (b"\x81theora") in ANY logical stream, while load reads the comment of info.serial.  Witness: a
+   well-formed multiplexed file in which a page of stream 9 starts with b"\x03vorbis" in front of the comment page of
+   the Vorbis stream 5; save() succeeds, the file stays well-formed, but the tags read back are still the old ones and
+   the packet of the foreign stream has been overwritten (see also C02_ogg_wrong_stream_refuted). *)
+Theorem C01_ogg_unaligned_refuted : exists f t cb f' told,
+  ogg_wf f = true /\ vc_valid t = true /\ ogg_load f OVorbis = Ok (told, 3) /\
+  ogg_save f OVorbis t cb = Ok f' /\ ogg_wf f' = true /\ ogg_load f' OVorbis = Ok (told, 3) /\ told <> t.
+Proof.
+  exists ex_bait, ex_tags, (Some (cb_const 0)), ex_bait_saved, ex_old.
+  destruct ex_bait_wrong_stream as (A & B & C & D & E & F & _). repeat split; try assumption. discriminate.
+Qed.
+Print Assumptions C01_ogg_unaligned_refuted.
+
 (* non-vacuity: a multiplexed Vorbis file, and an Opus file whose comment packet has a tail to be preserved *)
 Example C01_ogg_ex_vorbis :
   ogg_save ex_vorbis OVorbis ex_tags (Some (cb_const 2)) = Ok ex_vorbis_saved /\ ogg_wf ex_vorbis_saved = true /\
